@@ -170,6 +170,39 @@ macro_rules! zst {
 zst!(ZT, T_TOTAL);
 zst!(ZU, U_TOTAL);
 
+// ---- zero-size, alignment 8, with a destructor (two zero-size types can still differ in alignment)
+macro_rules! zst_a8 {
+    ($name:ident, $total:ident) => {
+        #[repr(align(8))]
+        pub struct $name;
+        impl Drop for $name {
+            fn drop(&mut self) {
+                unsafe {
+                    $total += 1;
+                }
+            }
+        }
+        impl Elem for $name {
+            const HAS_KEY: bool = false;
+            const TRACKED: bool = false;
+            const COUNTED: bool = true;
+            const NAME: &'static str = stringify!($name);
+            fn make(_slot: usize, _key: u8) -> Self {
+                $name
+            }
+            fn key(&self) -> u8 {
+                0
+            }
+            fn set_key(&mut self, _k: u8) {}
+            fn slot(&self) -> usize {
+                0
+            }
+        }
+    };
+}
+zst_a8!(ZA8T, T_TOTAL);
+zst_a8!(ZA8U, U_TOTAL);
+
 // ---- large element, 64 bytes / align 1
 macro_rules! big {
     ($name:ident, $drops:ident, $total:ident) => {
